@@ -292,6 +292,41 @@ static void plan_c10(void)
         vh_group_end();
     }
     /* (b) writers and readers */
+    /* the switch governs the header seal of EVERY fragment a writer emits, whatever payload checksum type the instance uses */
+    for (int ci = 0; ci < NCOVER; ci++) for (int ct = CHKSUM_NONE; ct <= CHKSUM_MD5; ct++) for (int e = 0; e < 5; e++) {
+        struct shape sh = COVER[ci];
+        if (ct == CHKSUM_CRC32) continue;                       /* the main loop below */
+        if (!thorough && ci >= 5 && e >= 2) continue;
+        if (!vh_group_begin("F/C10/seal/%s/k%dm%dhd%d/ct%d/env%s", be_name(sh.be), sh.k, sh.m, sh.hd, ct, ENVS[e] ? ENVS[e] : "-")) continue;
+        struct stripe s;
+        if (stripe_open(&s, sh, ct, 37, PAT_RAMP, ENVS[e]) == 0) {
+            int n = s.n, legacy = env_is_legacy(ENVS[e]);
+            for (int d = -1; d < n; d++) {
+                if (d >= 0 && !(d == 0 || d == sh.k || d == n - 1)) continue;
+                if (d >= 0 && sh.be == EC_BACKEND_NULL) continue;
+                if (!vh_case_begin(d < 0 ? "written-by-encode" : "written-by-reconstruct/dst%d", d)) continue;
+                vh_nontrivial();
+                for (int i = (d < 0 ? 0 : d); i < (d < 0 ? n : d + 1); i++) {
+                    const uint8_t *f = (const uint8_t *)enc_frag(&s, i);
+                    if (d >= 0) {
+                        char **arr = (char **)(s.gptr.p + s.gptr.len) - n; int nf = 0;
+                        for (int j = 0; j < n; j++) if (j != d) arr[nf++] = (char *)frag_at(&s, GP_END, j);
+                        uint8_t *ob = s.gout.p + s.gout.len - s.flen;
+                        vh_op("liberasurecode_reconstruct_fragment"); vh_transitions(1);
+                        int rc = liberasurecode_reconstruct_fragment(s.desc, arr, nf, s.flen, d, (char *)ob);
+                        if (rc != 0) { vh_violation("reconstruct-failed", "dest %d rc=%d", d, rc); continue; }
+                        f = ob;
+                    }
+                    uint32_t mwant = legacy ? crc_legacy(f, 59) : crc_std(f, 59);
+                    if (le32(f + 67) != mwant) vh_violation("wrong-checksum-written", "%s fragment %d (checksum type %d): metadata checksum 0x%08x, %s CRC-32 of the 59 metadata bytes is 0x%08x",
+                                                            d < 0 ? "encoded" : "reconstructed", i, ct, le32(f + 67), legacy ? "historical" : "standard", mwant);
+                    if (f[53] != 0) vh_violation("mismatch-flag-written", "fragment %d: mismatch flag byte is %d", i, f[53]);
+                }
+            }
+        }
+        stripe_close(&s, 0);
+        vh_group_end();
+    }
     for (int ci = 0; ci < NCOVER; ci++) {
         struct shape sh = COVER[ci];
         if (sh.be == EC_BACKEND_NULL) continue;
@@ -620,6 +655,9 @@ static void plan_c12(void)
                 for (int b = 0; b < 256; b++) { memcpy(w, base, s.flen); w[54] = (uint8_t)b; wire_seal(w, 0); C12("backend_id=%d", b); }
                 uint32_t v0 = le32(base + 55), bvs[] = { v0 - 1, v0, v0 + 1, 0, golden_backend_version(I.be), golden_backend_version(I.be) + 1, golden_backend_version(I.be) ^ 0x010000 };
                 for (int x = 0; x < 7; x++) { memcpy(w, base, s.flen); put_le32(w + 55, bvs[x]); wire_seal(w, 0); C12("backend_version=%08x", bvs[x]); }
+                /* every single-bit neighbour of the version and of the index (all 32 bits of each field take part in the comparison), resealed */
+                for (int b = 0; b < 32; b++) { memcpy(w, base, s.flen); put_le32(w + 55, v0 ^ (1u << b)); wire_seal(w, 0); C12("backend_version=%08x", v0 ^ (1u << b));
+                                               memcpy(w, base, s.flen); put_le32(w, le32(base) ^ (1u << b)); wire_seal(w, 0); C12("idx=%u", le32(base) ^ (1u << b)); }
                 /* foreign fragment relabelled as ours: id and version of I */
                 memcpy(w, base, s.flen); w[54] = (uint8_t)I.be; put_le32(w + 55, golden_backend_version(I.be)); put_le32(w, 0); wire_seal(w, 0); C12("%s", "relabelled-as-instance-backend");
                 /* older versions whose minor or revision byte is LARGER than the running library's are still older */
@@ -718,9 +756,10 @@ static int isa_invertible(const struct shape *sh, uint32_t E)
     free(M); free(G); return ok;
 }
 enum { DMG_PAYLOAD_FIRST, DMG_PAYLOAD_MID, DMG_PAYLOAD_LAST, DMG_IDX, DMG_BACKEND_ID, DMG_BACKEND_VER, DMG_LIBVER, DMG_IDX_N1, DMG_IDX_2_31, DMG_IDX_MAX, DMG_BACKEND_VER_0,
-       DMG_LIBVER_OTHER_PAYLOAD, DMG_BACKEND_ID_OTHER_PAYLOAD, DMG_TWIN, DMG_TWIN_OTHER_PAYLOAD, NDMG };
+       DMG_LIBVER_OTHER_PAYLOAD, DMG_BACKEND_ID_OTHER_PAYLOAD, DMG_TWIN, DMG_TWIN_OTHER_PAYLOAD, DMG_BACKEND_VER_B24_OTHER_PAYLOAD, DMG_BACKEND_VER_B31_OTHER_PAYLOAD, NDMG };
 static const char *dmg_name[NDMG] = { "payload-first", "payload-mid", "payload-last", "idx=k+m", "foreign-backend-id", "backend-version+1", "libec-version+1", "idx=k+m+1", "idx=2^31", "idx=2^32-1", "backend-version=0",
-                                      "libec-version+1,other-payload-consistently-stamped", "foreign-backend-id,other-payload-consistently-stamped", "opposite-endian-twin", "opposite-endian-twin,other-payload" };
+                                      "libec-version+1,other-payload-consistently-stamped", "foreign-backend-id,other-payload-consistently-stamped", "opposite-endian-twin", "opposite-endian-twin,other-payload",
+                                      "backend-version^2^24,other-payload-consistently-stamped", "backend-version^2^31,other-payload-consistently-stamped" };
 /* a different payload under a payload checksum that matches it: only the header field says the fragment is not ours */
 static void other_payload(uint8_t *f, size_t flen)
 {
@@ -741,6 +780,8 @@ static void damage(uint8_t *f, size_t flen, int kind, int n)
     case DMG_BACKEND_VER_0: put_le32(f + 55, 0); break;
     case DMG_LIBVER_OTHER_PAYLOAD: other_payload(f, flen); put_le32(f + 63, liberasurecode_get_version() + 1); break;
     case DMG_BACKEND_ID_OTHER_PAYLOAD: other_payload(f, flen); f[54] = (uint8_t)(f[54] == EC_BACKEND_FLAT_XOR_HD ? EC_BACKEND_LIBERASURECODE_RS_VAND : EC_BACKEND_FLAT_XOR_HD); break;
+    case DMG_BACKEND_VER_B24_OTHER_PAYLOAD: other_payload(f, flen); put_le32(f + 55, le32(f + 55) ^ 0x01000000u); break;
+    case DMG_BACKEND_VER_B31_OTHER_PAYLOAD: other_payload(f, flen); put_le32(f + 55, le32(f + 55) ^ 0x80000000u); break;
     case DMG_TWIN: wire_byteswap_twin(f); return;
     case DMG_TWIN_OTHER_PAYLOAD: other_payload(f, flen); wire_seal(f, 0); wire_byteswap_twin(f); return;
     case DMG_BACKEND_ID: f[54] = (uint8_t)(f[54] == EC_BACKEND_FLAT_XOR_HD ? EC_BACKEND_LIBERASURECODE_RS_VAND : EC_BACKEND_FLAT_XOR_HD); break;
